@@ -214,13 +214,40 @@ def _uj(x):
     return bytes.fromhex(x['hex']) if isinstance(x, dict) else x
 
 
+def _width(op):
+    t, n, v = op
+    return 0 if t in ('dump', 'set') else n * 8 if t in ('bytes', 'text') else n
+
+
+def _gen_dump(ch, ops, uints):
+    """look at the bytes written so far; they can only be taken when they are whole octets, so the last octet is
+    mostly completed first with an unsigned field"""
+    rest = -sum(_width(o) for o in ops) % 8
+    if rest and ch.bool(3, 4):
+        uints.append(len(ops))
+        ops.append(('uint', rest, ch.int(0, (1 << rest) - 1)))
+    ops.append(('dump', 0, 0))
+
+
 def gen_seq(ch, max_fields):
     n = ch.int(1, max_fields)
     ops = []
+    uints = []          # indices of the unsigned fields written so far (targets of in-place overwrites)
     for _ in range(n):
         t = ch.weighted([(4, 'uint'), (2, 'int'), (1, 'bool'), (1, 'bin'), (2, 'bytes'), (1, 'skip'),
-                         (1, 'text')])
+                         (1, 'text'), (1, 'dump'), (2 if uints else 0, 'set')])
+        if t == 'dump':
+            _gen_dump(ch, ops, uints)
+            continue
+        if t == 'set':
+            k = ch.choice(uints)
+            w = ops[k][1]
+            ops.append(('set', k, ch.weighted([(3, ch.int(0, (1 << w) - 1)), (1, 0), (1, (1 << w) - 1)])))
+            if ch.bool():
+                _gen_dump(ch, ops, uints)       # overwrite, then look at the bytes at once
+            continue
         if t == 'uint':
+            uints.append(len(ops))
             w = ch.weighted([(3, ch.int(1, 64)), (1, 8), (1, 24), (1, 1)])
             v = ch.weighted([(3, ch.int(0, (1 << w) - 1)), (1, 0), (1, (1 << w) - 1)])
             ops.append(('uint', w, v))
@@ -252,10 +279,33 @@ def check_seq(case):
     w = get_bit_writer()
     bits = ''
     exp_reads = []
+    starts = {}         # op index -> (bit offset, index into exp_reads) of an unsigned field
     try:
-        for op in case.ops:
+        for iop, op in enumerate(case.ops):
             t, n, v = op
+            if t == 'dump':
+                if len(bits) % 8 == 0:
+                    out.classes.append('dump_in_mid_sequence')
+                    got = w.to_bytes()
+                    if got != model_bytes(bits):
+                        out.fail('to_bytes in mid-sequence differs from the model', got=got.hex(), expected=model_bytes(bits).hex(),
+                                 after_ops=iop)
+                        return out
+                continue
+            if t == 'set':
+                off, ridx = starts[n]
+                width = case.ops[n][1]
+                out.classes.append('overwrite_in_place')
+                out.nontrivial = True
+                w.set_uint(v, width, off)
+                bits = bits[:off] + ubits(v, width) + bits[off + width:]
+                exp_reads[ridx] = ('uint', width, v)
+                if w.get_pos() != len(bits):
+                    out.fail('set_uint changed the length of the stream', got=w.get_pos(), expected=len(bits))
+                    return out
+                continue
             if t == 'uint':
+                starts[iop] = (len(bits), len(exp_reads))
                 if bits and len(bits) % 8:
                     out.nontrivial = True
                 w.write_uint(v, n)
